@@ -382,7 +382,24 @@ func qdScenario(cs qdCase) *mc.Scenario {
 						fail("C11:refused-on-release", "waiter %d returned refused on a release", w.id)
 					} else {
 						heldToks = append(heldToks, w.tok)
-						if w.id != exp {
+						// a caller whose context was cancelled while eviction is off is still blocked; C11's text
+						// ("callers still waiting (not timed out or cancelled)") leaves open whether it keeps its
+						// turn, so both serving it in its place and passing over it are accepted
+						okOrder := false
+						for k := 0; k < len(waiting); k++ {
+							id := waiting[k]
+							if want == "lifo" {
+								id = waiting[len(waiting)-1-k]
+							}
+							if id == w.id {
+								okOrder = true
+								break
+							}
+							if !ws[id].canceled {
+								break
+							}
+						}
+						if !okOrder {
 							fail("C11:order/"+want+"-served-wrong-waiter", "%s constructor %s: release with waiting=%v (arrival order) granted waiter %d, expected %d; history %v",
 								strings.ToUpper(want), name, waiting, w.id, exp, history)
 						}
